@@ -133,7 +133,22 @@ def check(ctx):
                 owner = f["owner_fn"]
                 ok = owner in ALLOWED or owner.endswith(ALLOWED_SUFFIX)
                 ctx.ob("R13.3", f"{owner}|calls|{t[1]['fname']}", ok, f"{f['file']}:{t[1]['line']}", f"`{owner.split('::')[-1]}` frees a pool slot; only owners of a slot may (handle drops, zero-copy release/unleak, reservation cancel)")
-    ctx.floor("R13.1", 9); ctx.floor("R13.2", 5); ctx.floor("R13.3", 8)
+    # second layer: the zero-copy containers' own slot-freeing functions (unleak_slot_* = give an allocated slot back, release_leaked_* = free a consumed one)
+    # run the payload's destructor on whatever the slot holds.  Their reviewed callers: the container's own `consume` (published => written) and the channels'
+    # `try_cancel_slot_reserve` (documented for payloads without destructor).  Any other caller -- a drop guard that un-leaks on cancellation, a clean-up helper --
+    # destroys a slot nobody is known to have written, or one somebody still holds.
+    FREEING = ("unleak_slot_id", "unleak_slot_ref", "release_leaked_id", "release_leaked_ref")
+    OK2 = ("::try_cancel_slot_reserve", "MetaSubscriber::consume")
+    for f in fx.fns:
+        for blk in f["blocks"]:
+            t = blk["term"]
+            if t[0] == "Call" and t[1].get("fname") in FREEING and ("MetaPublisher" in (t[1].get("f") or "") or "MetaSubscriber" in (t[1].get("f") or "") or "zero_copy" in (t[1].get("f") or "")):
+                owner = f["owner_fn"]
+                if owner.endswith(ALLOWED_SUFFIX[:4]) : continue       # the container functions delegating to each other (by ref -> by id)
+                ok = owner.endswith(OK2)
+                ctx.ob("R13.3", f"{owner}|calls|{t[1]['fname']}", ok, f"{f['file']}:{t[1]['line']}",
+                       f"`{owner.split('::')[-1]}` frees a zero-copy slot through `{t[1]['fname']}` (runs the payload's destructor on the slot's bytes and recycles it); reviewed callers: the container's consume and try_cancel_slot_reserve")
+    ctx.floor("R13.1", 9); ctx.floor("R13.2", 5); ctx.floor("R13.3", 13)
     # ---------------------------------------------------------------- R13.4 the free list itself: ring shape + wrap safety (shared with C02 / C15)
     # "allocation fails only if all were outstanding", "a deallocated slot becomes allocatable again" and the property's explicit
     # "sequence-counter wrap of the free list" rest on the free-list ring's guards being exact and wrap-safe
